@@ -51,6 +51,10 @@ def build_program(rng, last_kind=None, predefined=None):
         lines.append({'k': 'org', 'addr': sg['addr'], 'zone_name': None})
         if si == muted_seg:
             lines.append({'k': 'mute'})
+            if rng.random() < 0.6:
+                # directives inside a branch that is not compiled change nothing: the segment stays muted
+                lines.append({'k': 'comment', 'text': rng.choice(['#if 0', '#ifdef NOT_DEFINED_ANYWHERE']) + '\n' +
+                              rng.choice(['#unmute', '#emit']) + '\n#endif'})
         for i, ln in enumerate(sg['lines']):
             lines.append(ln)
             if rng.random() < 0.12:
